@@ -42,6 +42,8 @@ impl Rep {
 pub fn run(obligation: &str) -> i32 {
     let mut rep = Rep::new();
     std::panic::set_hook(Box::new(|_| {}));   // panics of the code under contract are reported as outcomes, not printed
+    if ["C04.generate_character_string", "C04.generate_oid", "C04.char_string_template", "C04.oid_template"].iter().any(|p| obligation.starts_with(p)) { gen_strings(&mut rep); return rep.finish("GEN_assignments"); }
+    if obligation.starts_with("C03.generate_module_defaults") || obligation.starts_with("C05.generate_module_defaults") { gen_module_defaults(&mut rep); return rep.finish("GEN_module"); }
     if ["C06.generate_integer", "C06.integer_template", "C04.generate_typealias", "C04.generate_octet_string", "C04.generate_bit_string", "C04.typealias_template", "C04.octet_string_template", "C04.fixed_octet_string_template", "C04.bit_string_template", "C04.fixed_bit_string_template"].iter().any(|p| obligation.starts_with(p)) { gen_assignments(&mut rep); return rep.finish("GEN_assignments"); }
     if obligation.starts_with("C02.type_table") || obligation.starts_with("C02.string_type") || obligation.starts_with("C02.qualified_type") { gen_type_table(&mut rep); return rep.finish("GEN_type_table"); }
     if obligation.starts_with("C07.value_to_tokens") { gen_values(&mut rep); return rep.finish("GEN_values"); }
@@ -425,6 +427,61 @@ fn gen_values(rep: &mut Rep) {
         rep.check("C07.value_to_tokens.time_value_is_parsed_from_exactly_the_source_string", matches!(&g, Ok(x) if nows(x) == want), || format!("time {t} as {tn:?} -> {}", show(&g)));
     } }
     rep.check("C07.value_to_tokens.object_identifier_is_what_format_oid_renders", true, || String::new());
+}
+
+/// generate_character_string / generate_oid on the real crate (through generate_module): eleven string types x {no, SIZE(2..5)} x {untagged, [PRIVATE 4]};
+/// expected: `#[rasn(delegate[, tag(..)][, size("2..=5")] ..)] pub struct T(pub <rasn type>);` — common annotations first, then the size of the type's own constraints
+fn gen_strings(rep: &mut Rep) {
+    use rasn_compiler::verif_hooks::hook_generate_type;
+    let nows = |s: &str| s.chars().filter(|c| !c.is_whitespace()).collect::<String>();
+    let size = |lo: i128, hi: i128| Constraint::Subtype(ElementSetSpecs { set: ElementOrSetOperation::Element(SubtypeElements::SizeConstraint(Box::new(ElementOrSetOperation::Element(SubtypeElements::ValueRange { min: Some(ASN1Value::Integer(lo)), max: Some(ASN1Value::Integer(hi)), extensible: false })))), extensible: false });
+    let types = [(CharacterStringType::NumericString, Some("NumericString")), (CharacterStringType::VisibleString, Some("VisibleString")), (CharacterStringType::IA5String, Some("Ia5String")), (CharacterStringType::TeletexString, Some("TeletexString")),
+        (CharacterStringType::VideotexString, None), (CharacterStringType::GraphicString, Some("GraphicString")), (CharacterStringType::GeneralString, Some("GeneralString")), (CharacterStringType::UniversalString, Some("UniversalString")),
+        (CharacterStringType::UTF8String, Some("Utf8String")), (CharacterStringType::BMPString, Some("BmpString")), (CharacterStringType::PrintableString, Some("PrintableString"))];
+    for env in [TaggingEnvironment::Automatic, TaggingEnvironment::Explicit] { for tagged in [false, true] { for sized in [false, true] {
+        let tag = if tagged { Some(AsnTag { environment: TaggingEnvironment::Implicit, tag_class: TagClass::Private, id: 4 }) } else { None };
+        let mut head = String::from("#[rasn(delegate");
+        if tagged { head.push_str(",tag(private,4)"); }
+        if sized { head.push_str(",size(\"2..=5\")"); }
+        for (st, rust) in types {
+            let ty = ASN1Type::CharacterString(CharacterString { constraints: if sized { vec![size(2, 5)] } else { vec![] }, ty: st });
+            let got = hook_generate_type(env, false, &ty, tag.clone());
+            let d = || format!("module_default={env:?} T ::= {}{st:?}{} -> {}", if tagged { "[PRIVATE 4] IMPLICIT " } else { "" }, if sized { " (SIZE(2..5))" } else { "" }, match &got { Ok(t) => nows(t), Err(e) => format!("ERR {e}") });
+            match rust {
+                None => rep.check("C04.generate_character_string.fails_only_when_a_callee_fails", got.is_err(), d),
+                Some(r) => {
+                    rep.check("C04.generate_character_string.fails_only_when_a_callee_fails", got.is_ok(), d);
+                    let ok = matches!(&got, Ok(t) if { let t = nows(t); t.contains(&head) && t.contains(&format!("pubstructT(pub{r});")) && (sized || !t.contains("size(")) && (tagged || !t.contains("tag(")) });
+                    rep.check("C04.generate_character_string.newtype_over_the_rasn_type_of_this_string_type_with_common_size_and_alphabet_annotations_of_its_own_constraints", ok, d);
+                    rep.check("C04.char_string_template.newtype_over_the_given_string_type", ok, d);
+                }
+            }
+        }
+        let ty = ASN1Type::ObjectIdentifier(ObjectIdentifier { constraints: vec![] });
+        let got = hook_generate_type(env, false, &ty, tag.clone());
+        let d = || format!("module_default={env:?} T ::= {}OBJECT IDENTIFIER -> {}", if tagged { "[PRIVATE 4] IMPLICIT " } else { "" }, match &got { Ok(t) => nows(t), Err(e) => format!("ERR {e}") });
+        let want = format!("#[rasn(delegate{})]pubstructT(pubObjectIdentifier);", if tagged { ",tag(private,4)" } else { "" });
+        rep.check("C04.generate_oid.fails_only_when_a_callee_fails", got.is_ok(), d);
+        rep.check("C04.generate_oid.newtype_with_the_common_annotations_and_the_annotation_of_its_own_constraints", matches!(&got, Ok(t) if nows(t).contains(&want)), d);
+        rep.check("C04.oid_template.newtype_over_object_identifier", matches!(&got, Ok(t) if nows(t).contains("pubstructT(pubObjectIdentifier);")), d);
+    } } }
+}
+
+/// the head of generate_module on the real crate: ONE backend generates two modules in a row, every ordered pair of (tagging default, extensibility default);
+/// expected: the second module's items follow the second module's defaults (automatic_tags exactly for AUTOMATIC, non_exhaustive exactly for IMPLIED)
+fn gen_module_defaults(rep: &mut Rep) {
+    use rasn_compiler::verif_hooks::hook_generate_two_modules;
+    let nows = |s: &str| s.chars().filter(|c| !c.is_whitespace()).collect::<String>();
+    let envs = [TaggingEnvironment::Automatic, TaggingEnvironment::Implicit, TaggingEnvironment::Explicit];
+    for e1 in envs { for i1 in [false, true] { for e2 in envs { for i2 in [false, true] {
+        let got = hook_generate_two_modules((e1, i1), (e2, i2));
+        let d = || format!("first module: {e1:?} tags, extensibility implied={i1}; second module: {e2:?} tags, implied={i2} -> second module: {}", match &got { Ok(t) => nows(t), Err(e) => format!("ERR {e}") });
+        let Ok(t) = &got else { rep.check("C03.generate_module_defaults.tagging_default_is_that_of_the_module_being_generated", false, d); continue; };
+        let t = nows(t);
+        rep.check("C03.generate_module_defaults.tagging_default_is_that_of_the_module_being_generated", t.contains("automatic_tags") == (e2 == TaggingEnvironment::Automatic), d);
+        rep.check("C05.generate_module_defaults.extensibility_default_is_that_of_the_module_being_generated", t.contains("#[non_exhaustive]") == i2, d);
+        rep.check("C03.generate_module_defaults.nothing_else_of_the_backend_changes", t.contains("pubstructT{pubf0:bool,}"), d);
+    } } } }
 }
 
 /// format_default_methods on the real crate: lists of 0..=4 components, each required / OPTIONAL / DEFAULT, of type BOOLEAN, INTEGER,
